@@ -146,4 +146,5 @@ def c38_cases():
             continue
         for pn, fac, kw in pipes:
             out.append(Case(f'{name}/{pn}', src, 'column_driver', S, mk_pipeline(fac, pn, **kw), 'temporaries'))
-    return out
+    from vlib.corpus.c38pool import cases as pool_cases  # pylint: disable=import-outside-toplevel
+    return out + pool_cases()
